@@ -29,6 +29,7 @@ type obs struct {
 	handlerArg                      []error
 	ctxEnd                          int // earliest time the service context was ended from outside (Close / parent cancel); 0 = never
 	startRes                        []error
+	lateRes                         []error // Start calls made after Wait had returned
 	startRet                        []int
 	waitRes                         []error
 	waitCall, waitRet               []int
@@ -105,6 +106,11 @@ func (o *obs) verdict(where string, run, shutdown, cleanup, handler int, e *vs.E
 		case errors.Is(r, srv.ErrServiceAlreadyStarted), errors.Is(r, srv.ErrServiceReturned):
 		default:
 			return "start/unexpected-error", where + ": " + r.Error()
+		}
+	}
+	for _, r := range o.lateRes {
+		if r != nil && !errors.Is(r, srv.ErrServiceReturned) {
+			return "start/late-start-not-ErrServiceReturned", where + fmt.Sprintf(": a Start issued after Wait had returned reported %v (all late results: %v)", r, o.lateRes)
 		}
 	}
 	if len(o.startRes) > 0 && okStarts != 1 {
@@ -299,12 +305,23 @@ func concurrent(run, shutdown, cleanup int, starters int, closer, waiter bool, r
 			if waiter {
 				<-wfin // the concurrent waiter returns once the service has ended
 			}
-			// one more Start after the end: must not succeed
-			r := s.Start(parent)
-			if r == nil {
-				o.startRes = append(o.startRes, r)
-				o.startRet = append(o.startRet, vs.Now())
+			// two more Starts after the end, concurrently: a finished service
+			// reports ErrServiceReturned to each of them
+			lfin := make(chan struct{}, 2)
+			for i := 0; i < 2; i++ {
+				go func() {
+					r := s.Start(parent)
+					o.lateRes = append(o.lateRes, r)
+					if r == nil {
+						o.startRes = append(o.startRes, r)
+						o.startRet = append(o.startRet, vs.Now())
+					}
+					lfin <- struct{}{}
+				}()
 			}
+			<-lfin
+			<-lfin
+			o.runningAfterWait = append(o.runningAfterWait, s.Running())
 		}
 		check := func(e *vs.End) (string, string) {
 			where := fmt.Sprintf("run=%s shutdown=%s cleanup=%s starters=%d closer=%v waiter=%v runBlocks=%v", outcomeNames[run], outcomeNames[shutdown], outcomeNames[cleanup], starters, closer, waiter, runBlocks)
